@@ -9,6 +9,7 @@ package verifsim
 import (
 	"bytes"
 	"encoding/binary"
+	"encoding/hex"
 	"fmt"
 	"math/big"
 	"sort"
@@ -42,10 +43,38 @@ const (
 	kSum      = "wasm:sum_func"
 	kSft      = "wasm:shared-fungible-token-wallet"
 	kCases    = "wasm:test-cases"
+	// not a bundled contract: a 216-byte hand-assembled module (see c15SpenderHex) that forwards its
+	// arguments to the host's create_transfer_promise / burn. None of the bundled contracts ever
+	// moves coins, so without it "a contract can never send more than it holds" would not be
+	// exercised for WASM at all.
+	kSpender = "wasm:spender"
 )
 
+// c15SpenderHex is the binary of
+//
+//	(module
+//	  (import "env" "create_transfer_promise" (func $transfer (param i32 i32)))   ;; (address region, amount region)
+//	  (import "env" "burn" (func $burn (param i32)))                              ;; (amount region)
+//	  (memory (export "memory") 2)
+//	  (global $heap (mut i32) (i32.const 8192))
+//	  (func (export "allocate") (param $size i32) (result i32) (local $r i32)     ;; bump allocator of {offset,capacity,length} regions
+//	    global.get $heap  local.set $r
+//	    (i32.store          (local.get $r) (i32.add (local.get $r) (i32.const 12)))
+//	    (i32.store offset=4 (local.get $r) (local.get $size))
+//	    (i32.store offset=8 (local.get $r) (i32.const 0))
+//	    (global.set $heap (i32.add (i32.add (local.get $r) (i32.const 12)) (local.get $size)))
+//	    local.get $r)
+//	  (func (export "deploy"))
+//	  (func (export "send") (param $to i32) (param $amount i32) (call $transfer (local.get $to) (local.get $amount)))
+//	  (func (export "burn") (param $amount i32) (call $burn (local.get $amount))))
+//
+// The host hands every call argument over as a region pointer, so `send(to, amount)` transfers
+// `amount` (big-endian bytes) of the contract's coins to `to`, `burn(amount)` destroys them.
+const c15SpenderHex = "0061736d01000000011b0660027f7f0060017f0060017f017f60000060027f7f0060017f00022a0203656e76176372656174655f7472616e736665725f70726f6d697365000003656e76046275726e00010305040203040505030100020608017f014180c0000b072c05066d656d6f7279020008616c6c6f636174650002066465706c6f7900030473656e640004046275726e00050a41042c01017f2300210120012001410c6a36020020012000360204200141003602082001410c6a20006a240020010b02000b08002000200110000b0600200010010b"
+
+
 var c15EmbeddedKinds = []string{kTimeLock, kMultisig, kOV, kOL, kROL}
-var c15WasmKinds = []string{kErc20, kInc, kSum, kSft, kCases}
+var c15WasmKinds = []string{kErc20, kInc, kSum, kSft, kCases, kSpender}
 
 var c15CodeHash = map[string]common.Hash{
 	kTimeLock: embedded.TimeLockContract, kMultisig: embedded.MultisigContract, kOV: embedded.OracleVotingContract,
@@ -64,6 +93,7 @@ var c15Methods = map[string][]string{
 	kSum:      {"invoke", "_sum"},
 	kSft:      {"transferTo", "getBalance", "receive", "_addBalance"},
 	kCases:    {"test", "_deployCallback"},
+	kSpender:  {"send", "burn"},
 }
 
 var c15KnownMethod = map[string]bool{}
@@ -85,6 +115,7 @@ func init() {
 	load(kSum, testdata.SumFunc)
 	load(kSft, testdata.SharedFungibleToken)
 	load(kCases, testdata.TestCases)
+	load(kSpender, func() ([]byte, error) { return hex.DecodeString(c15SpenderHex) })
 	for _, l := range c15Methods {
 		for _, m := range l {
 			c15KnownMethod[m] = true
@@ -568,6 +599,8 @@ func (g *C15Gen) newDeploy(kind string) *cand {
 		}
 		c.Owner = g.rich(Dna(3500))
 		switch kind {
+		case kSpender:
+			cd.amount = Dna(int64(r.Range(1, 40))) // the pay amount is what the contract will have to spend
 		case kSum:
 			if l := g.live(kInc); len(l) > 0 {
 				c.Inc = l[r.Intn(len(l))].Addr
@@ -910,6 +943,24 @@ func (g *C15Gen) candidates(c *C15Contract) []*cand {
 			add("Call", "receive", g.rich(Dna(300)), nil, big.NewInt(5).Bytes(), g.someAddr().Bytes())
 		case 3:
 			add("Call", "_addBalance", g.rich(Dna(300)), nil, big.NewInt(5).Bytes())
+		}
+	case kSpender:
+		pay := big.NewInt(0)
+		if r.Intn(3) == 0 || bal.Sign() == 0 {
+			pay = Dna(int64(r.Range(1, 9)))
+		}
+		have := new(big.Int).Add(bal, pay)
+		amt := part(have, r)
+		switch r.Intn(5) {
+		case 0:
+			amt = new(big.Int).Add(have, big.NewInt(1)) // one unit more than it will hold
+		case 1:
+			amt = new(big.Int).Add(have, Dna(int64(r.Range(1, 1000))))
+		}
+		if r.Intn(3) == 0 {
+			add("Call", "burn", g.rich(new(big.Int).Add(pay, Dna(300))), pay, amt.Bytes())
+		} else {
+			add("Call", "send", g.rich(new(big.Int).Add(pay, Dna(300))), pay, g.someAddr().Bytes(), amt.Bytes())
 		}
 	case kCases:
 		sub := []string{kInc, kInc, kSum, kErc20}[r.Intn(4)]
